@@ -22,6 +22,15 @@ claim("C12", "guarded-by analysis over the whole package + *_unlocked call-site 
 claim("C10", "typestate by CFG dominance with self-call summaries + sanitiser-before-sink taint (reaching definitions) + node-ownership analysis + exit-shape rules",
       "Decides structurally: R-10.1 every public Transaction method (all subclasses) passes _check_ended() before any low-level hook and _check_read_only() before any mutating hook, and put/delete hooks are reached only through the _checked_* wrappers; R-10.2 every key used with self.nodes/changed/delegations in Version, WritableVersion and the btreezone subclass is the result of _validate_name/_maybe_cow_with_name or comes from the map itself (reaching definitions; raw parameters are tainted); R-10.3 node mutators run only on nodes obtained by copy-on-write / fresh / already-in-changed, zone.nodes is replaced only at commit, the writable version copies the map; R-10.4 __exit__ commits iff no exception else rolls back and never swallows, _end sets _ended on every exit, _end_transaction ends exactly once and publishes only on commit; R-10.5 base and btreezone put/delete/delete_node/_maybe_cow_with_name keep the same obligations. Does NOT decide conformance of operation sequences to a reference model (TTL merge, singleton rules, serial arithmetic) or atomicity at arbitrary abort points beyond these exits.",
       "DESIGN.md section 3, C10")
+claim("C11", "write-set (mutation effect) analysis resolved per immutable subclass + frozen-container capability table + CFG shape rules",
+      "Decides structurally: R-11.1 the complete mutator surface (every method with a non-empty transitive write set) of ImmutableRdataset, the three immutable node classes and the two ImmutableVersion classes is either overridden by an always-raising body or blocked by construction (the mutated field is rebound in __init__ to dns.immutable.Dict/tuple, which lack the operation, and the class is @immutable so rebinding raises); dns.immutable.Dict and _Immutable.__setattr__/__delattr__ have the required shape; R-11.2 both ImmutableVersion constructors wrap every changed node and freeze the map (and delegations), and every version a versioned zone publishes - including version 1 - is the immutable factory's result; R-11.3 Transaction.get/get_node and versioned.Zone.find/get_rdataset return frozen views, legacy zone mutators raise or hit the frozen map; R-11.4 _versions changes only by append/popleft, pruning is bounded by `id < least_kept` with least_kept = min reader id else newest id, ids are last+1, readers register/unregister under the lock. Does NOT decide snapshot isolation over interleaved histories (follows informally from R-10.3 + R-11.1/2) nor what a user-supplied pruning policy allows.",
+      "DESIGN.md section 3, C11")
+claim("C19", "ownership typestate: fixpoint of owner-requiring methods/parameters + reaching-definition provenance of every node receiver + freeze-protocol shape rules",
+      "Decides structurally for dns/btree.py: R-19.1 every in-place write to _Node.elts/children and every call of a (transitively) node-mutating method has an OWNED receiver/argument - self of a mutating method, the result of maybe_cow_child/_get_node/clone/constructor, or self.root after the root copy-on-write idiom - while values read from X.children[...] are shared (1 reasoned exception: the re-fetch after balance in delete); summaries of maybe_cow/maybe_cow_child/clone/split/_get_node are verified; R-19.2 every BTree method that changes the tree is dominated by _check_mutable_and_park(), which raises when frozen, freezing is one-way, cloning requires a frozen original, each tree has a fresh creator token; R-19.3 BTreeDict/BTreeSet touch the tree only through BTree's public operations. Does NOT decide sorted-map conformance, occupancy bounds, leaf depth or cursor behaviour over operation sequences.",
+      "DESIGN.md section 3, C19")
+claim("C20", "enum-exhaustive flag re-derivation check + block-level pairing of flag/index/subtree updates + key provenance (shared with C10) + predicate shape rules",
+      "Decides structurally for dns/btreezone.py: R-20.1 at every site of WritableVersion that replaces a node by a fresh one, every NodeFlags member is copied or re-derived under the right predicate (ORIGIN/_is_origin, GLUE/is_glue, DELEGATION/membership in the index); R-20.2 delegations.add/discard, the DELEGATION flag and update_glue_flag of the subtree always change together, delete_node mirrors delete_rdataset, update_glue_flag walks exactly the proper subdomains and sets/clears GLUE on the right side; R-20.3 map and index are B-tree containers, keys are validated, get_delegation/is_glue have the documented shape. Known finding (listed, not fixed): nested cuts are load-order dependent. Does NOT decide bounds() results or equality of incremental and recomputed state over histories.",
+      "DESIGN.md section 3, C20")
 # CLAIMS-END
 
 NA_REASON = {}
